@@ -31,6 +31,9 @@ func runC14(c *Ctx) {
 	c14ErrFlow(c)
 	c14Arity(c)
 	c14NoAlias(c)
+	rangeVarsNotAssigned(c, "FIRSTLINE", "component/outbound", nil)
+	c14AnnotationValidated(c)
+	parseNumSites(c, "ARITY", []string{"component/outbound"}, func(f string) bool { return f == "dialer_selection_policy.go" })
 }
 
 // switchDefaultsOnlyErrors checks every tagged switch over a string-typed tag in f.
